@@ -7,7 +7,7 @@ use tower::{Layer, Service};
 use tower_resilience_ratelimiter::{RateLimiter, RateLimiterLayer, RateLimiterServiceError, WindowType};
 
 pub struct RateLimiterAd {
-    svc: Option<RateLimiter<Inner>>,
+    svc: Option<Handles<RateLimiter<Inner>>>,
 }
 impl RateLimiterAd {
     pub fn new() -> Self {
@@ -32,7 +32,7 @@ impl Adapter for RateLimiterAd {
         let l = 1 + rng.below(if size == Size::Quick { 3 } else { 5 });
         let p = *rng.pick(&[3u64, 4, 5, 8]);
         let t = *rng.pick(&[0u64, 1, 2, p - 1, p, p + 1, 2 * p, 2 * p + 1, 4 * p]);
-        json!({"win": win, "L": l, "P": p, "T": t})
+        json!({"hm": rng.below(3), "win": win, "L": l, "P": p, "T": t})
     }
     fn build(&mut self, cfg: &Value, sim: &mut Sim) {
         sim.w.lock().unwrap().auto = Some(GOut::Ok);
@@ -47,14 +47,15 @@ impl Adapter for RateLimiterAd {
             .timeout_duration(Duration::from_millis(cfg["T"].as_u64().unwrap()))
             .window_type(wt)
             .build();
-        self.svc = Some(layer.layer(Inner::new(&sim.w)));
+        self.svc = Some(Handles::new(layer.layer(Inner::new(&sim.w)), cfg["hm"].as_u64().unwrap_or(0)));
     }
     fn mk(&mut self, req: &Req) -> CallFut {
-        let mut s = self.svc.as_ref().unwrap().clone();
-        let w = futures::task::noop_waker();
-        let mut cx = std::task::Context::from_waker(&w);
-        let _ = s.poll_ready(&mut cx);
-        let f = s.call(req.clone());
+        let f = self.svc.as_mut().unwrap().with(|s| {
+            let w = futures::task::noop_waker();
+            let mut cx = std::task::Context::from_waker(&w);
+            let _ = s.poll_ready(&mut cx);
+            s.call(req.clone())
+        });
         Box::pin(async move { map_res(f.await) })
     }
     fn params(&self, cfg: &Value, size: Size, rng: &mut Rng) -> DriveParams {
